@@ -257,3 +257,43 @@ Proof.
         -- replace (72 - length bs)%nat with 0%nat by lia. rewrite skipn_O. apply app_nil_r.
         -- rewrite (skipn_all2 bs) by lia. rewrite skipn_all2 by (rewrite repeat_length; lia). reflexivity.
 Qed.
+
+(* ------------------------------------------------------------------ C04: death inside wipe *)
+Theorem wipe_writes_image : concat wipe_writes = wipe_image.
+Proof. reflexivity. Qed.
+
+Theorem crash_states_refused_spec writes : crash_states_refused writes = true ->
+  forall n h, reader_open (FFile (firstn n (concat writes))) <> OpenOk h.
+Proof.
+  unfold crash_states_refused. intros H n h E. rewrite forallb_forall in H.
+  destruct (Nat.le_gt_cases n (length (concat writes))) as [Hle|Hgt].
+  - specialize (H n). rewrite E in H. cbn in H. assert (In n (seq 0 (S (length (concat writes))))) by (apply in_seq; lia).
+    specialize (H H0). discriminate.
+  - rewrite firstn_all2 in E by lia. specialize (H (length (concat writes))). rewrite firstn_all in H. rewrite E in H. cbn in H.
+    assert (In (length (concat writes)) (seq 0 (S (length (concat writes))))) by (apply in_seq; lia). specialize (H H0). discriminate.
+Qed.
+
+Theorem wipe_crash_never_valid : forall n h, reader_open (FFile (firstn n wipe_image)) <> OpenOk h.
+Proof. rewrite <- wipe_writes_image. apply crash_states_refused_spec. vm_compute. reflexivity. Qed.
+
+(* and whatever state it left, the next daemon's start-up and first publication make the segment
+   usable with exactly the published record (repair_recreated, for that state) *)
+Theorem wipe_crash_then_restart n r : ceb_ok r ->
+  after_first_publication (FFile (firstn n wipe_image)) r = Some (encode_header (fresh_header 2) ++ encode_ceb r).
+Proof.
+  intros Hr. unfold after_first_publication.
+  destruct (reader_open (FFile (firstn n wipe_image))) as [h|k] eqn:E; [|reflexivity].
+  exfalso. exact (wipe_crash_never_valid n h E).
+Qed.
+
+(* why the file must be truncated first: writing the same bytes over the old content can pass
+   through a state that readers accept although its record is the old garbage *)
+Definition overwrite (old new : list Z) (k : nat) : list Z := firstn k new ++ skipn k old.
+
+Theorem wipe_without_truncation_refuted :
+  exists old k h, (forall h', reader_open (FFile old) <> OpenOk h') /\
+                  reader_open (FFile (overwrite old wipe_image k)) = OpenOk h.
+Proof.
+  exists (enc_u 4 7 ++ enc_u 4 MAGIC1 ++ enc_u 4 SEGSIZE ++ enc_u 2 1 ++ enc_u 2 6 ++ repeat 255 56), 4%nat.
+  eexists. split; [intros h' E; vm_compute in E; discriminate | vm_compute; reflexivity].
+Qed.
